@@ -412,7 +412,7 @@ class StopExploration(Exception):
     after an update hit the time limit: every further update would hit it too)."""
 
 
-CASE_CPU_BUDGET_S = 150.0  # a case of the unchanged tree needs 0.1 .. 20 s of CPU
+CASE_CPU_BUDGET_S = 60.0  # a case of the unchanged tree needs 0.1 .. 20 s of CPU
 LAST = {"budget_stop": False}
 
 
